@@ -16,6 +16,33 @@ CHECKS = {
             'as Wire behaviours.',
             'Model payloads < 256 bytes; TCP in-order delivery; asyncio calls data_received with arbitrary chunks.',
             'DESIGN.md 2.1, C10'),
+    'C08': ('TLC exhaustive model check of PCSched.tla (all interleavings, liveness under fairness) + label prediction and '
+            'TLC-simulated behaviours replayed into the real runtime in the in-process simulator + recorded runs '
+            'validated by TLC against RtTrace.tla',
+            'All interleavings of task steps / reconciles / deliveries of constant programs (M=3, T=1; M=4 thorough) in '
+            'the model: schedule-independent labels, deadlock freedom, termination under weak fairness, unique terminal '
+            'state. The labels the model predicts per connection (evaluated through the real _hop) equal those of the '
+            'mirrored real programs under random, priority and TLC-projected schedules; a corpus of real programs runs to '
+            'completion with identical outputs under all schedule families and every event trace is accepted by RtTrace '
+            '(pc discipline per coroutine context).',
+            'Bounded programs and schedules; _hop treated as collision free; schedules fair; simulator reproduces '
+            'asyncio ordering guarantees (connection_made before data_received, FIFO per connection).',
+            'DESIGN.md 2.3, C08'),
+    'C09': ('TLC model check of PCSched.tla (UniqueLabels, ConsumedOnce, Quiet) and Wire.tla with a duplicated label + '
+            'recorded runs validated by TLC against RtTrace.tla (positional matching of sends with independently parsed wire frames)',
+            'Model: unique labels, each consumed once, nothing in flight/buffered/awaited at termination, for all '
+            'interleavings of the constant programs. Code: for every recorded run, per directed connection the labels are '
+            'pairwise distinct, the frames parsed independently from the raw bytes equal the sends (order, label, size), '
+            'sent = received label sets at the end, and all buffers are empty after shutdown.',
+            'Bounded corpus/configurations/schedules; hash collisions reported only when observed.',
+            'DESIGN.md 2.1, 2.3, C09'),
+    'C35': ('TLC model check of PCSched.tla (BarrierSound, LevelCount, termination) + recorded runs with barriers under all '
+            'schedule families validated by TLC against RtTrace.tla (open-coroutine accounting)',
+            'Model: main finishes only when every coroutine is reconciled, for all interleavings. Code: every depth-0 '
+            'barrier exit and every connection close in the recorded runs happens with no open coroutine started before; '
+            '_pc_level equals the number of open coroutines there; all connections are deregistered; all parties finish.',
+            'Barriers enabled; bounded programs; fair schedules.',
+            'DESIGN.md 2.3, C35'),
 }
 NA_REASON = 'check not built yet in this session (planned, see DESIGN.md section 3); not claimed'
 
